@@ -76,6 +76,26 @@ def gen_cases(tier, seed):
                       'kw': kw, 'spin': spin, 'mseed': r.randrange(1 << 30),
                       'dims': [4, 4] if spin else list(r.choice([(2, 2), (2, 3),
                                                                  (3, 2)]))})
+    # fixed cases of the mechanism of known finding F25 (an inner result that
+    # carries all target indices of the term is exempt from max_itmd_dim)
+    f25 = [
+        ([{'t': 'amp', 'name': 't1', 'up': ['a', 'b'], 'lo': ['j', 'k']},
+          {'t': 'anti', 'name': 'f', 'up': ['c'], 'lo': ['c'], 'bk': 0},
+          {'t': 'anti', 'name': 'f', 'up': ['j'], 'lo': ['j'], 'bk': 0}],
+         ['a', 'k', 'b'], {'max_itmd_dim': 0,
+                           'max_n_simultaneous_contracted': 3}),
+        ([{'t': 'anti', 'name': 'V', 'up': ['i', 'b'], 'lo': ['b', 'e'],
+           'bk': 0},
+          {'t': 'anti', 'name': 'd', 'up': ['a'], 'lo': ['a'], 'bk': 0},
+          {'t': 'anti', 'name': 'f', 'up': ['l'], 'lo': ['l'], 'bk': 0,
+           'exp': 2}],
+         ['i', 'e'], {'max_itmd_dim': 1}),
+    ]
+    for k, (objs, order, kw) in enumerate(f25):
+        cases.append({'id': f'C16-{tier[0]}{seed}-F25-{k}',
+                      'term': {'pref': '1', 'objs': objs}, 'order': order,
+                      'give_targets': True, 'kw': kw, 'spin': False,
+                      'mseed': 77 + k, 'dims': [2, 3]})
     return cases
 
 
@@ -187,8 +207,10 @@ def audit_and_run(ev, term, scheme, tgt, kw, unoptimized=False):
                              f'{kw["max_n_simultaneous_contracted"]}')
             if 'max_itmd_dim' in kw and k < len(scheme) - 1 and \
                     len(c.target) > kw['max_itmd_dim']:
+                full = ' that carries all target indices of the term' \
+                    if tuple(c.target) == tuple(tgt) else ''
                 probs.append(f'inner step {k} has a {len(c.target)}-dimensional '
-                             f'result, limit {kw["max_itmd_dim"]}')
+                             f'result{full}, limit {kw["max_itmd_dim"]}')
         # scaling claims
         from collections import Counter as C2
         cs, ts = C2(s.space for s in c.contracted), C2(s.space for s in c.target)
@@ -311,8 +333,13 @@ def run_case(case, res):
             probs.append(f'maximal computational scaling {worst} is worse than '
                          f'the single simultaneous contraction {un_comp}')
     if probs:
+        # known finding F25: the library exempts every contraction whose result
+        # has the target indices of the term from max_itmd_dim, not only the last
+        tags = ['inner_result_carries_term_target'] \
+            if all(q.startswith('inner step') and 'carries all target' in q
+                   for q in probs) else []
         res.violation(f'optimize_contractions({t}, {args}, {kw}): {probs[:3]}; '
-                      f'scheme {scheme}')
+                      f'scheme {scheme}', tags)
 
 
 def _shape(t):
